@@ -109,6 +109,9 @@ class FakeMethod:
         return self.next_udp
 
     def send_udp(self, sock, srcip, dstip, data):
+        if getattr(self, 'fail_next', None) is not None:
+            e, self.fail_next = self.fail_next, None
+            raise e
         self.sent.append((srcip, dstip, data))
 
 
@@ -299,8 +302,11 @@ class RealWorld:
             f['open'] = False
         return 'closed'
 
-    def frame(self, chan):
+    def frame(self, chan, fail=False):
+        """fail: the local delivery of this reply fails (the transparent sender cannot bind: EADDRINUSE)"""
         ss = self.ssnet
+        import errno as _errno
+        self.method.fail_next = OSError(_errno.EADDRINUSE, 'scripted: Address already in use') if fail else None
         owners = self.find_open(chan)
         kind = owners[0][1]['kind'] if owners else ['tcp', 'dns', 'udp'][chan % 3]
         sent0 = len(self.method.sent)
@@ -319,6 +325,11 @@ class RealWorld:
             for n, f in self.flows.items():
                 if f['kind'] != 'tcp' and f['src'] == dstip:
                     got.append((f['kind'], n))
+        self.method.fail_next = None
+        if fail:
+            for n, f in owners:
+                if f['kind'] == 'dns':
+                    f['open'] = False        # the query's state is released before the send
         for k, n in got:
             if k == 'dns':
                 self.flows[n]['open'] = False
@@ -490,6 +501,22 @@ def run(ctx):
                         elif kind == 'close':
                             o = w.close(arg)
                             li = 'close %d' % arg
+                        elif kind == 'fframe':
+                            # a reply whose local delivery fails.  The code lets the error end the client process
+                            # (C08's business); whatever a tree does instead, an id is not taken from a flow that
+                            # is still held — the oracles below judge the tables as they are afterwards
+                            own = w.find_open(arg)
+                            if not own or own[0][1]['kind'] == 'tcp':
+                                continue
+                            try:
+                                w.frame(arg, fail=True)
+                            except OSError:
+                                ctx.hist('op:failed-delivery-ends-the-process')
+                                break
+                            ctx.hist('op:failed-delivery-handled')
+                            li = 'fframe %d' % arg
+                            o = None
+                            nontriv = True
                         else:
                             o, got, owners = w.frame(arg)
                             li = 'frame %d' % arg
@@ -508,11 +535,12 @@ def run(ctx):
                         lines_in.append('%s %s' % (kind, arg))
                         lines_out.append('exception %s' % type(e).__name__)
                         break
-                    lines_in.append(li)
                     rops.append(li)
-                    lines_out.append(o)
-                    lines_in.append('table')
-                    lines_out.append(w.table())
+                    if o is not None:      # (a failed delivery is not an operation of the model)
+                        lines_in.append(li)
+                        lines_out.append(o)
+                        lines_in.append('table')
+                        lines_out.append(w.table())
                     # oracle: every association the client holds (and will send on) owns a registered id
                     lost = [i for i in w.held() if not w.mux.channels.get(i)]
                     if lost:
@@ -551,6 +579,8 @@ def run(ctx):
                     ops.append(('tick', rng.choice([1, 29, 30, 31, 61])))
                 elif r < 0.18:
                     ops.append(('again', rng.randrange(0, 4)))
+                elif r < 0.23:
+                    ops.append(('fframe', rng.randrange(0, min(maxch, 12) + 2)))
                 elif r < 0.5:
                     ops.append(('open', rng.choice(['tcp', 'dns', 'udp'])))
                 elif r < 0.75:
@@ -587,6 +617,10 @@ def run(ctx):
         for gap in (29, 30, 31, 61):
             history(2, 0, [('open', 'udp'), ('open', 'dns'), ('tick', gap), ('again', 0), ('open', 'tcp'), ('open', 'tcp'),
                            ('frame', 1), ('frame', 2)], 'refresh-after-idle')
+        # a reply that cannot be delivered locally, the association still in use, then the cursor comes round
+        for first in ('udp', 'dns'):
+            history(2, 0, [('open', first), ('fframe', 1), ('again', 0), ('open', 'tcp'), ('open', 'dns'), ('frame', 1), ('frame', 2)],
+                    'failed-delivery-then-wrap')
         # an accept of another kind between a question and its answer, then the cursor comes round
         for first in ('dns', 'udp'):
             for gap in (0, 4, 29):
@@ -669,6 +703,11 @@ def replay(ctx, rep):
                             return True, 'arrival %r discarded with only %d of %d ids in use' % (line, len(w.live()), case['max'])
                     elif k == 'close':
                         w.close(int(a))
+                    elif k == 'fframe':
+                        try:
+                            w.frame(int(a), fail=True)
+                        except OSError:
+                            return False, 'the failed delivery ends the client process (not an identifier matter)'
                     else:
                         o, got, owners = w.frame(int(a))
                         want = [(f['kind'], n) for n, f in owners]
